@@ -358,7 +358,9 @@ Definition spec_case (c : case) : bool :=
   | CaseLab g b =>
       (* C01 as stated, on the client-visible reply *)
       (* validating client, name under a signed chain: the zone's data or SERVFAIL *)
-      (if negb (b_cd b) && g_secure g && negb (b_rcode b =? SERVFAIL) then b_data_ok b else true) &&
+      (* (a name inside a validated Opt-Out span — g_ad_optional — may be an unsigned delegation left out of the chain: the
+         chain is not secure for it, what is served for it WITHOUT AD is outside this clause; AD stays bound below) *)
+      (if negb (b_cd b) && g_secure g && negb (g_ad_optional g) && negb (b_rcode b =? SERVFAIL) then b_data_ok b else true) &&
       (* SERVFAIL toward an EDNS client carries an extended error *)
       (if negb (b_cd b) && (b_rcode b =? SERVFAIL) && b_edns b && negb (g_untampered g) then b_ede b else true) &&
       (* AD only over a chain signed up to the anchor, with genuine data *)
